@@ -5,6 +5,7 @@ CONSTANTS
   RawNames = {}
   LinkDirnameUntranscoded = FALSE
   FullLen = 2
+  MetaLen = 2
   CoreLen = 3
   UnivFull <- UFullQ
   UnivCore <- UCoreQ
